@@ -349,7 +349,9 @@ def parseQuery (isTz : String → Bool) (ts : List Token) : Query :=
             let right : Conversion :=
               match peek r with
               | .eof => .none
-              | .degree d => .degree d
+              | .degree d =>
+                -- a temperature scale is a conversion target only on its own (comments aside)
+                if peek ((adv r).dropWhile fun t => t == .comment) == .eof then .degree d else .expr (parseEq fuel r).1
               | .plus | .minus =>
                 match parseOffset r with
                 | some off => .offset off
